@@ -53,5 +53,6 @@ For each change i = 1..{n} deliver, in the directory {wt}/../out_{prop}/ (create
   - notes{{i}}.md    : 5-15 lines: title (short, kebab-case, e.g. `reset-moved-out-of-retry-loop`), which directory the demo goes in and the
                       exact `go test -run` command, what the change is, why the existing suite does not notice, and exactly what is needed for it to manifest.
 Before finishing, verify yourself for each change: clean checkout + patch → build ok, suite passes, demo fails; clean checkout without patch → demo passes.
+Never use `git stash` (the stash is shared by all worktrees of the repository; other agents work in sibling worktrees): save a change with `git diff > file`, drop it with `git checkout -- .`, re-apply with `git apply file`.
 Leave the worktree clean (`git checkout -- . && git clean -fdq`) at the end. Your final message: for each change one line with title, files touched, and the verification results you observed (be truthful; if you could only produce one valid change, say so).
 """)
